@@ -82,6 +82,12 @@ def programs():
     P['2x2-z-window9'] = dict(z='permessage-deflate; client_max_window_bits=9',
                               threads=[[['send_binary', b'T0-0 ' + bytes(range(256)) * 3], ['send_binary', b'T0-1 ' + bytes(range(256)) * 3]],
                                        [['send_binary', b'T1-0 ' + bytes(range(256)) * 3], ['send_text', 'T1-1 uuuuuuuu']]])
+    # persist()-style use: the loop thread sees the connection end and connects again (same WebSocket object) while
+    # another thread is in the middle of a send / close.  Connection 1 negotiated permessage-deflate, connection 2
+    # does not: whatever a call that began on connection 1 does, it must not put anything on connection 2.
+    P['loop-reconnect-plain||sender-z'] = dict(z='permessage-deflate', loop='reconnect', loop_n=6,
+                                               threads=[[['send_text', 'T1-0 kkkkkkkkkkkkkkkkkkkkkkkk']]])
+    P['loop-reconnect-plain||closer'] = dict(z='permessage-deflate', loop='reconnect', loop_n=6, threads=[[['close', 1000, 'bye']]])
     return P
 
 
@@ -127,8 +133,15 @@ def _execute(prog, plan=None, rnd=None, switch_prob=0.0, files=None, pct=None):
         steps = [('at', 1.0), ('raw', F(8, refws.close_payload(1000, 'reply')))]
     elif loop == 'server-ping-close':
         steps = [('at', 1.0), ('raw', F(9, b'srv-ping') + F(8, refws.close_payload(1000, 'srv')))]
+    factory = H.hs_server(steps, hs)
+    if loop == 'reconnect':
+        def factory(idx):      # noqa
+            if idx == 0:
+                return simnet.ScriptServer([('hs', hs), ('at', 1.0), ('eof',)])
+            return simnet.ScriptServer([('hs', {}), ('at', 3.0), ('raw', F(1, b'second connection'))])
+        horizon = 20.0
     with sched.InstalledShim():
-        w = H.World(H.hs_server(steps, hs), split_send=True, horizon=horizon, stop_at=horizon or None, budget=50000)
+        w = H.World(factory, split_send=True, horizon=horizon, stop_at=horizon or None, budget=50000)
         with simnet.Installed(w):
             ws = env.WebSocket('ws://example.com/', compress=bool(z))
             g = ws.connect(session_class=simnet.SimSession, **ckw)
@@ -149,7 +162,8 @@ def _execute(prog, plan=None, rnd=None, switch_prob=0.0, files=None, pct=None):
             def make_app(tid, calls):
                 def fn():
                     for j, call in enumerate(calls):
-                        rec = dict(tid=tid, j=j, call=call, ok=False, exc=None, exc_type=None, log_before=len(w.log))
+                        rec = dict(tid=tid, j=j, call=call, ok=False, exc=None, exc_type=None, log_before=len(w.log),
+                                   state_obj=ws.state)
                         try:
                             name = call[0]
                             if name in ('send_text', 'send_binary') and len(call) > 2:
@@ -177,6 +191,14 @@ def _execute(prog, plan=None, rnd=None, switch_prob=0.0, files=None, pct=None):
                         loop_events.append(ev.name)
                         if ev.name == 'disconnected':
                             break
+                    if loop == 'reconnect':
+                        # what persist() does next: connect() again on the same object
+                        g2 = ws.connect(session_class=simnet.SimSession, **ckw)
+                        out.gen2 = g2
+                        for ev in g2:
+                            loop_events.append('2:' + ev.name)
+                            if ev.name in ('poll', 'disconnected', 'connect_fail') or len(loop_events) > 30:
+                                break
                 except (StopIteration, simnet.Quiesced):
                     loop_events.append('<end>')
 
@@ -195,6 +217,13 @@ def _execute(prog, plan=None, rnd=None, switch_prob=0.0, files=None, pct=None):
                 g.close()
             except BaseException:   # noqa
                 pass
+            if getattr(out, 'gen2', None) is not None:
+                out.state2 = (ws.is_closing, ws.is_closed)
+                out.state2_obj = ws.state
+                try:
+                    out.gen2.close()
+                except BaseException:   # noqa
+                    pass
     return out
 
 
@@ -231,6 +260,8 @@ def judge_c11(prog, out):
         if t.exc is not None:
             detail['thread_exc'] = repr(t.exc)
             return 'thread-died-with-exception', detail, None
+    if prog.get('loop') == 'reconnect':
+        return judge_reconnect(prog, out, detail)
     frames, residue, errors = wire_frames(w)
     detail['wire'] = [(f['opcode'], f['rsv1'], f['payload'][:12]) for f in frames]
     if residue or errors:
@@ -296,6 +327,55 @@ def judge_c11(prog, out):
             return 'per-thread-order-violated', detail, None
         bythread[tid] = j
     sig = tuple((tid, j) for pos, tid, j in sorted(order))
+    return None, detail, sig
+
+
+def judge_reconnect(prog, out, detail):
+    """a call that overlaps the reconnect belongs to the connection it started on"""
+    w = out.world
+    detail['loop_events'] = list(out.loop_events)
+    for r in out.records:
+        if r['exc_type'] is not None and not issubclass(r['exc_type'], env.lerrors.WebSocketError):
+            detail['exception'] = r['exc']
+            return 'racing-call-raised-non-websocket-error:%s' % r['exc_type'].__name__, detail, None
+    walls = []
+    for c in w.conns[:2]:
+        tx = bytes(c.tx)
+        i = tx.find(b'\r\n\r\n')
+        walls.append(refws.decode_client_stream(tx[i + 4:]) if i >= 0 else ([], b'', []))
+    while len(walls) < 2:
+        walls.append(([], b'', []))
+    (f1, res1, err1), (f2, res2, err2) = walls
+    detail['wire1'] = [(f['opcode'], f['rsv1'], f['payload'][:12]) for f in f1]
+    detail['wire2'] = [(f['opcode'], f['rsv1'], f['payload'][:12]) for f in f2]
+    if res1 or err1 or res2 or err2:
+        return 'wire-not-a-sequence-of-whole-frames', detail, None
+    if any(f['rsv1'] for f in f2):
+        # connection 2 negotiated no extension: this frame was compressed for connection 1
+        return 'compressed-frame-of-the-previous-connection-written-to-the-next-one', detail, None
+    # A close() that runs wholly before or wholly after connect() is the application's business (it may well make
+    # the new attempt fail).  One that WROTE its Close frame on connection 1 belongs to connection 1: it must not
+    # leave connection 2 closing, closed or failed.
+    closing2, closed2 = getattr(out, 'state2', (False, False))
+    close_on_1 = any(f['opcode'] == 8 for f in f1)
+    close_on_2 = any(f['opcode'] == 8 for f in f2)
+    if close_on_1 and not close_on_2:
+        detail['state2'] = (closing2, closed2)
+        if closing2 or closed2:
+            return 'close-written-on-the-previous-connection-marked-the-next-one-as-closing', detail, None
+        if '2:connect_fail' in out.loop_events:
+            return 'close-written-on-the-previous-connection-failed-the-next-attempt', detail, None
+    if len(w.conns) < 2:
+        return None, detail, ((0, 0),)
+    peer = deflate_peer.Peer()
+    for f in f1:
+        if f['rsv1']:
+            try:
+                peer.inflate(f['payload'])
+            except deflate_peer.InflateError as e:
+                detail['inflate_error'] = str(e)
+                return 'peer-cannot-inflate-in-wire-order', detail, None
+    sig = ((len(f1), len(f2)),) + tuple((9, int(bool(r['ok']))) for r in out.records)
     return None, detail, sig
 
 
